@@ -1,17 +1,10 @@
 (* C19: rank boundaries, the stored minima/maxima in closed form, and the theorems about construct/classify.
    The rank formula gen_rank and the entries gen_min_entry/gen_max_entry are the ones regenerated from the source. *)
 From Coq Require Import List ZArith QArith Qround Qfield Bool Sorted Permutation Lia Lqa.
-From SX Require Import Lib.Py Gen.GenCentrality Model.Centrality Proofs.C19_Sort Proofs.C19_Lookup Proofs.C19_Edges.
+From SX Require Import Lib.Py Lib.PyLemmas Gen.GenCentrality Model.Centrality Proofs.C19_Sort Proofs.C19_Lookup Proofs.C19_Edges.
 Import ListNotations.
 
 (* ---- rank boundaries ---------------------------------------------------------------------------------- *)
-Lemma Qtrunc_comp x y : (x == y)%Q -> Qtrunc x = Qtrunc y.
-Proof.
-  intros E. unfold Qtrunc.
-  assert (H : Qle_bool 0 x = Qle_bool 0 y) by (apply eq_true_iff_eq; rewrite !Qle_bool_iff, E; reflexivity).
-  rewrite H. destruct (Qle_bool 0 y); [apply Qfloor_comp, E | f_equal; apply Qfloor_comp; rewrite E; reflexivity].
-Qed.
-
 Definition rank_spec (N : Z) (e : Q) : Z := Qfloor (inject_Z N * e / 100)%Q.
 
 Lemma gen_rank_floor N e : (0 <= N)%Z -> (0 <= e)%Q -> gen_rank N e = rank_spec N e.
@@ -68,14 +61,6 @@ Proof.
   destruct i, j; cbn in Ha, Hb; try lia.
   - injection Ha as <-. rewrite Forall_forall in Hall. apply Hall. eapply nth_error_In, Hb.
   - eapply IH; [|exact Ha|exact Hb]. lia.
-Qed.
-
-Lemma pyget_ok {A} (l : list A) (i : Z) (d : A) : (0 <= i < Z.of_nat (length l))%Z ->
-  pyget l i = Ok (nth (Z.to_nat i) l d).
-Proof.
-  intros H. unfold pyget.
-  destruct (i <? 0)%Z eqn:E; [apply Z.ltb_lt in E; lia|]. rewrite E.
-  rewrite (nth_error_nth' l d) by lia. reflexivity.
 Qed.
 
 Section Build.
